@@ -4,6 +4,7 @@ package main
 
 import (
 	"encoding/json"
+	"fmt"
 	"math/rand"
 	"net/url"
 	"servitor/gemtext"
@@ -11,6 +12,7 @@ import (
 	"servitor/object"
 	"servitor/plaintext"
 	"servitor/pub"
+	"strings"
 )
 
 func dumpBody(m any) any {
@@ -106,12 +108,188 @@ func init() {
 		})
 	}}
 	groups["present"] = group{gen: func(r *rand.Rand, n int, emit func(Op)) {
+		count := 0
 		genPubFuzz(r, n, func(op Op) {
 			if op["op"] != "pubfuzz" {
 				return
 			}
+			count++
+			widths := []any{genWidth(r), pick(r, []int{-5, 0, 1, 2, 4, 5, 8, 20, 80, 84, 120})}
+			doc := op["doc"]
+			if count%3 == 0 {
+				/* one control character (all of them in turn), in one of its spellings, put into
+				   every string the item shows -- also exactly where a line of these widths ends */
+				doc = injectControls(r, doc.(string), count/3, widths)
+			}
 			/* a fresh item per width sequence: String/Preview share the Markup cache */
-			emit(Op{"op": "present", "doc": op["doc"], "as": op["as"], "withid": op["withid"], "widths": []any{genWidth(r), pick(r, []int{-5, 0, 1, 2, 4, 5, 8, 20, 80, 84, 120})}})
+			emit(Op{"op": "present", "doc": doc, "as": op["as"], "withid": op["withid"], "widths": widths})
+			if count%5 == 0 {
+				/* and, one code point after the other, a plain note / profile that carries the
+				   character in all its spellings in every place a body has */
+				emit(controlDoc(r, count/5))
+			}
 		})
 	}}
+}
+
+/* ---------- control characters, every one, in every spelling ---------- */
+
+/*
+C0, DEL, C1; then characters that are not controls for unicode.IsControl but steer a terminal
+
+	or the reader all the same (they are printable for the model as they are for the code)
+*/
+func controlPoint(i int) rune {
+	others := []rune{0x200b, 0x200e, 0x202e, 0x2028, 0x2029, 0x2066, 0x2069, 0xfeff, 0x061c, 0xfff9, 0xe0001, 0xad, 0x180e}
+	i %= 65 + len(others)
+	switch {
+	case i < 32:
+		return rune(i)
+	case i == 32:
+		return 0x7f
+	case i < 65:
+		return rune(0x80 + i - 33)
+	}
+	return others[i-65]
+}
+
+/* the ways a character can be written in fetched content */
+func spellings(c rune) []string {
+	out := []string{string(c), string(c),
+		fmt.Sprintf("&#%d;", c), fmt.Sprintf("&#x%x;", c), fmt.Sprintf("&#X%X;", c), fmt.Sprintf("&#%d", c), fmt.Sprintf("&#x%x", c),
+		fmt.Sprintf("&#%07d;", c), fmt.Sprintf("&#x%06x;", c), fmt.Sprintf("&amp;#%d;", c), fmt.Sprintf("%%%02X", c)}
+	if c < 0x80 {
+		out = append(out, fmt.Sprintf("%%%02x", c))
+	} else {
+		enc := ""
+		for _, b := range []byte(string(c)) {
+			enc += fmt.Sprintf("%%%02X", b)
+		}
+		out = append(out, enc)
+	}
+	return out
+}
+
+/* sequences a terminal acts on, spelled with the given introducer */
+func sequenceAround(r *rand.Rand, intro string) string {
+	return intro + pick(r, []string{"", "[2J", "]0;pwned", "31m", "P1$r", "_x", "^x", "Xx", "[?1049h", "c", "]52;c;cHduZWQ="}) + pick(r, []string{"", "", "\x07", "\x1b\\", "\u009c"})
+}
+
+var beyondUnicode = []string{"&#1114112;", "&#x110000;", "&#xD800;", "&#55296;", "&#xDFFF;", "&#4294967323;", "&#x10000001B;", "&#99999999999999999999;", "&#xFFFFFFFFFFFFFFFF1B;", "&#-27;", "&#x;", "&#;", "&#x1b", "&#0027;", "&#x0000001b;", "&#27;&#91;2J", "&#x9b;&#x9B;", "&#128;&#129;&#141;&#143;&#144;&#157;&#159;"}
+
+func injectControls(r *rand.Rand, docText string, i int, widths []any) string {
+	var doc map[string]any
+	if json.Unmarshal([]byte(docText), &doc) != nil {
+		return docText
+	}
+	c := controlPoint(i)
+	forms := spellings(c)
+	inj := func() string {
+		switch weighted(r, 8, 3, 1) {
+		case 0:
+			return pick(r, forms)
+		case 1:
+			return sequenceAround(r, pick(r, forms))
+		}
+		return pick(r, beyondUnicode)
+	}
+	/* exactly where a line of one of the widths ends (the header is wrapped at the width, the
+	   body four columns earlier, a preview's child eight) */
+	atEdge := func(s string) string {
+		w := I(Op{"v": pick(r, widths)}, "v") - pick(r, []int{0, 0, 4, 4, 8, 2, 6})
+		if w < 1 || w > 200 {
+			return s + inj()
+		}
+		k := w + pick(r, []int{-1, -1, 0, 0, 1, -2})
+		if k < 0 {
+			k = 0
+		}
+		return strings.Repeat("x", k) + inj() + "yz " + s
+	}
+	shown := map[string]bool{"name": true, "summary": true, "content": true, "preferredUsername": true, "type": false, "mediaType": false, "published": true, "href": true, "url": true, "id": false}
+	var walk func(v any, key string, depth int) any
+	walk = func(v any, key string, depth int) any {
+		switch x := v.(type) {
+		case string:
+			if want, known := shown[key]; known && !want && r.Intn(6) != 0 {
+				return x
+			}
+			switch weighted(r, 3, 3, 2, 2) {
+			case 0:
+				return x
+			case 1:
+				rs := []rune(x)
+				p := r.Intn(len(rs) + 1)
+				return string(rs[:p]) + inj() + string(rs[p:])
+			case 2:
+				return atEdge(x)
+			}
+			return inj() + x + inj()
+		case []any:
+			for k, e := range x {
+				x[k] = walk(e, key, depth+1)
+			}
+			return x
+		case map[string]any:
+			for k, e := range x {
+				x[k] = walk(e, k, depth+1)
+			}
+			return x
+		}
+		return v
+	}
+	walk(doc, "", 0)
+	b, _ := json.Marshal(doc)
+	return string(b)
+}
+
+/*
+a small post or profile with one control character (the k-th) written in every way, in text,
+
+	preformatted text, inline code, attributes that are shown, attachment names and links
+*/
+func controlDoc(r *rand.Rand, k int) Op {
+	c := controlPoint(k)
+	forms := spellings(c)
+	all := strings.Join(forms, " ")
+	pickf := func() string { return pick(r, forms) }
+	cycle := k / 78
+	var content, mt string
+	switch cycle % 3 {
+	case 0, 2:
+		mt = pick(r, []string{"text/html", "", "text/html; charset=utf-8"})
+		content = "<p>a " + all + " b</p><pre>" + all + "</pre><code>" + pickf() + "</code> <b>" + pickf() + "</b>" +
+			"<img src=\"https://t.example/i" + pickf() + "\" alt=\"pic " + all + "\"><img src=\"https://t.example/j?" + pickf() + "\">" +
+			"<iframe title=\"" + all + "\" src=\"https://t.example/f\"></iframe><a href=\"https://t.example/l" + pickf() + "\">link " + pickf() + "</a>" +
+			"<x" + pickf() + ">y</x>" + "<blockquote>" + sequenceAround(r, pickf()) + "</blockquote><ul><li>" + pickf() + "</li></ul><h1>" + pickf() + "</h1>"
+	case 1:
+		mt = "text/markdown"
+		content = "a " + all + " b\n\n    " + all + "\n\n`" + pickf() + "` **" + pickf() + "** [link " + pickf() + "](https://t.example/l" + pickf() + " \"" + pickf() + "\") ![pic " + all + "](https://t.example/i)\n\n> " + sequenceAround(r, pickf()) + "\n\n* " + pickf() + "\n\n# " + pickf()
+	}
+	if cycle%6 == 5 {
+		mt = pick(r, []string{"text/gemini", "text/plain"})
+		content = "=> https://t.example/g" + pickf() + " label " + all + "\n# " + pickf() + "\n```\n" + all + "\n```\nhttps://t.example/p" + pickf() + " " + all
+	}
+	doc := map[string]any{"content": content}
+	if mt != "" {
+		doc["mediaType"] = mt
+	}
+	as := "post"
+	if k%4 == 3 {
+		as = "actor"
+		doc["type"], doc["summary"], doc["name"], doc["preferredUsername"] = pick(r, []string{"Person", "Service"}), content, "N "+all, "u"+pickf()
+		doc["id"] = "https://h.example/u"
+		delete(doc, "content")
+	} else {
+		doc["type"], doc["name"] = pick(r, []string{"Note", "Article", "Video"}), "T "+all
+		doc["attachment"] = []any{
+			map[string]any{"type": "Link", "href": "https://t.example/a" + pickf(), "name": "att " + all},
+			map[string]any{"type": "Image", "url": "https://t.example/b" + pickf() + "?" + pickf() + "#" + pickf()},
+			map[string]any{"type": "Document", "url": pickf() + "://" + pickf(), "mediaType": "x/" + pickf()},
+		}
+		doc["published"] = pickf()
+		doc["attributedTo"] = map[string]any{"type": "Person", "name": "A " + all, "preferredUsername": pickf()}
+	}
+	b, _ := json.Marshal(doc)
+	return Op{"op": "present", "doc": string(b), "as": as, "withid": as == "actor", "widths": []any{pick(r, []int{80, 40, 120}), pick(r, []int{3, 7, 12, 20})}}
 }
